@@ -264,7 +264,6 @@ Definition raw_view (h : lheader) (unit_length header_length : Z) : hview :=
      v_include_directory := if v5 then [] else map DBytes (h_include_dirs h);
      v_file_entry := if v5 then [] else map file_entry_view (h_files h) |}.
 
-Definition ilsz (is64 : bool) : Z := if is64 then 12 else 4.
 Lemma zlen_initial_length le len is64 : zlen (initial_length_encode le len is64) = ilsz is64.
 Proof.
   unfold initial_length_encode, ilsz, zlen. destruct is64.
